@@ -11,7 +11,8 @@ resolve <hex src> [exp=<tag>] ast=<unannotated AST>
 wf <hex src> [exp=<tag>] ast=<…>
    -> viol=<violations of the scoping rules computed by the declarative spec `Spec/WF.lean`>
 full <hex src> [exp=<tag>] ast=<…>
-   -> wf=<0|1> scope=<n> type=<n>      (the documented judgement `Spec.WF`, with counts of violations)
+   -> wf=<0|1> scope=<n> type=<n> rt=<0|1>   (the documented judgement `Spec.WF`, with counts of violations;
+                                              rt = `Spec.ReturnsTyped`, the hypothesis of `c09_full_partial`)
 ```
 The source text is not used (the AST comes from the real parser).  `locals_len` is computed as the
 generated probe `Gen.Builtins.localsLenIsSpan` says the code computes it.
@@ -40,7 +41,8 @@ def answer (line : String) : String :=
           else if kind = "full" then
             let sv := Spec.scopeViolations root
             let tv := Spec.typeViolations root
-            s!"wf={if sv.isEmpty && tv.isEmpty then 1 else 0} scope={sv.length} type={tv.length}"
+            let rt : Nat := if Spec.blockRT { vars := [], fns := [] } root then 1 else 0
+            s!"wf={if sv.isEmpty && tv.isEmpty then 1 else 0} scope={sv.length} type={tv.length} rt={rt}"
           else "bad-op"
   | _, _ => "bad-op"
 
